@@ -17,6 +17,7 @@ def run(facts, tier):
         ("pair codec", P.pair_codec, 1, "(row << 6) | col everywhere"),
         ("canonical chains", lambda fa: chains.obligations(fa, ["cpc"]), 11, "typed update overloads follow the cross-language canonicalisation contract"),
         ("couplings", lambda fa: cowrite.obligations(fa, ['u32_table']), 2, "fields that every mutator updates together (counters, extremes, cached values) are still updated together"),
+        ("tautologies", lambda fa: generic_lints.tautologies(fa, ('cpc/',)), 2, "no comparison / assignment / min-max with two identical operands, no if-else with identical arms"),
         ("duplicate operands", lambda fa: generic_lints.duplicate_conjuncts(fa, ('cpc/',)), 2, "no logical chain tests the same operand twice (copy-paste of the wrong peer)"),
         ("overload twins", lambda fa: twins.overload_twins(fa, ('cpc/',)), 1, "const& and && overloads of one operation have identical bodies modulo std::move/forward"),
         ("structural triggers", lambda fa: triggers.obligations(fa, ['cpc_sketch_alloc', 'cpc_union_alloc', 'u32_table', 'cpc_compressor']), 8, "the comparisons that decide when to resize / rebuild / compact / purge / promote keep their reviewed boundary (operator and constants)"),
